@@ -31,7 +31,7 @@ def floors(tier):
 def plan(seed, tier):
     n = 10 if tier == "quick" else 90
     cases = [{"id": f"lro-{seed}-{i}", "seed": seed * 100003 + i, "broken": None} for i in range(n)]
-    cases += [{"id": f"lro-rest-{seed}-{i}", "seed": seed * 100003 + 3000 + i, "broken": None, "rest": ["unlisted", "listed"][i % 2]} for i in range(max(4, n // 3))]
+    cases += [{"id": f"lro-rest-{seed}-{i}", "seed": seed * 100003 + 3000 + i, "broken": None, "rest": ["unlisted", "listed", "norules"][i % 3]} for i in range(max(6, n // 3))]
     for i, b in enumerate(["no_response", "no_metadata", "both_empty"] * (2 if tier == "quick" else 8)):
         cases.append({"id": f"lro-bad-{seed}-{i}", "seed": seed * 100003 + 7000 + i, "broken": b})
     return cases
@@ -105,7 +105,7 @@ def run_case(case):
         for kind in (("grpc", "aio", "rest") if api.info.get("rest_lro") else ("grpc", "aio")):
             for k in rng.sample([0, 1, 2, 3], 2):
                 for outcome in ("response", "error"):
-                    opname = "operations/op-%d" % rng.randint(1, 10 ** 6)
+                    opname = "projects/p1/operations/op-%d" % rng.randint(1, 10 ** 6)
                     meta = model.new(mtype)
                     rdm.fill(rng, meta, max_depth=1)
                     first = model.new("google.longrunning.Operation")
